@@ -206,14 +206,14 @@ func NoReturn(info *types.Info, call *ast.CallExpr) bool {
 	if f.Pkg() != nil && f.Pkg().Path() == "github.com/rs/zerolog" {
 		switch f.Name() {
 		case "Msg", "Msgf", "Send", "MsgFunc":
-			return zerologChainLevel(info, call) != ""
+			return ZerologChainLevel(info, call) != ""
 		}
 	}
 	return false
 }
 
 // zerologChainLevel returns "Fatal"/"Panic" if the event chain of the terminating call starts at log.Fatal()/log.Panic().
-func zerologChainLevel(info *types.Info, call *ast.CallExpr) string {
+func ZerologChainLevel(info *types.Info, call *ast.CallExpr) string {
 	cur := ast.Expr(call)
 	for {
 		ce, ok := ast.Unparen(cur).(*ast.CallExpr)
